@@ -33,27 +33,27 @@ type BannerSpec struct {
 
 // Scenario is the replayable description of one end-to-end run.
 type Scenario struct {
-	Family      string            `json:"family"` // asa ios linux panos nsx
-	Front       string            `json:"front"`  // drc | do-approve
-	Verb        string            `json:"verb"`   // approve | compare
-	Device      string            `json:"device"`
-	Routes      []string          `json:"routes,omitempty"`
-	IPTables    string            `json:"iptables,omitempty"`
-	Target      map[string]string `json:"target"` // code files: router, ipv6/router, router.raw
-	Hostname    string            `json:"hostname"`
-	BannerText  string            `json:"banner_text"`
-	CheckBanner string            `json:"checkbanner"`
-	Password    string            `json:"password"`
-	HostKey     bool              `json:"hostkey,omitempty"`
-	EnablePass  bool              `json:"enable_pass,omitempty"`
-	Faults      []FaultSpec       `json:"faults,omitempty"`
-	Banners     []BannerSpec      `json:"banners,omitempty"`
+	Family      string              `json:"family"` // asa ios linux panos nsx
+	Front       string              `json:"front"`  // drc | do-approve
+	Verb        string              `json:"verb"`   // approve | compare
+	Device      string              `json:"device"`
+	Routes      []string            `json:"routes,omitempty"`
+	IPTables    string              `json:"iptables,omitempty"`
+	Target      map[string]string   `json:"target"` // code files: router, ipv6/router, router.raw
+	Hostname    string              `json:"hostname"`
+	BannerText  string              `json:"banner_text"`
+	CheckBanner string              `json:"checkbanner"`
+	Password    string              `json:"password"`
+	HostKey     bool                `json:"hostkey,omitempty"`
+	EnablePass  bool                `json:"enable_pass,omitempty"`
+	Faults      []FaultSpec         `json:"faults,omitempty"`
+	Banners     []BannerSpec        `json:"banners,omitempty"`
 	Members     []httpdev.PanMember `json:"members,omitempty"` // PAN-OS HA members (one per name in name_list)
-	APIKey      string            `json:"api_key,omitempty"`
-	Token       string            `json:"token,omitempty"`
-	Timeout     int               `json:"timeout,omitempty"`
-	Modified    bool              `json:"modified,omitempty"`
-	NoStateKeep bool              `json:"-"`
+	APIKey      string              `json:"api_key,omitempty"`
+	Token       string              `json:"token,omitempty"`
+	Timeout     int                 `json:"timeout,omitempty"`
+	Modified    bool                `json:"modified,omitempty"`
+	NoStateKeep bool                `json:"-"`
 }
 
 func (sc *Scenario) Case(property string) *props.Case {
@@ -96,20 +96,20 @@ type Line struct {
 
 // Outcome is everything observable of one run.
 type Outcome struct {
-	Run        dlg.RunResult
-	Lines      []Line
-	FaultAt    int // index into Lines of the first line hit by a fault (-1 none)
-	HashBefore string
-	HashAfter  string
-	Running    string // device running/candidate config text after the run
-	Saved      string // startup/active config text after the run
-	ReloadLeft bool
-	Files      map[string]string // every file under basedir, -L dir (relative names)
-	Status     string
-	History    string
-	Dir        string
+	Run             dlg.RunResult
+	Lines           []Line
+	FaultAt         int // index into Lines of the first line hit by a fault (-1 none)
+	HashBefore      string
+	HashAfter       string
+	Running         string // device running/candidate config text after the run
+	Saved           string // startup/active config text after the run
+	ReloadLeft      bool
+	Files           map[string]string // every file under basedir, -L dir (relative names)
+	Status          string
+	History         string
+	Dir             string
 	SessionsOverlap bool
-	Harness    error
+	Harness         error
 }
 
 func isCleanup(fam, text string) bool {
@@ -137,6 +137,7 @@ func isSessionSetting(fam, text string) bool {
 func classifySSH(fam string, evs []dlg.Event) ([]Line, int) {
 	var lines []Line
 	byN := map[int]int{}
+	modeConfig := map[int]bool{}
 	faultAt := -1
 	for _, e := range evs {
 		switch e.Ev {
@@ -145,6 +146,9 @@ func classifySSH(fam string, evs []dlg.Event) ([]Line, int) {
 			cl := "readonly"
 			if e.Phase != "cmd" {
 				cl = "login"
+			}
+			if e.Mode == "config" && cl == "readonly" {
+				modeConfig[e.N] = true
 			}
 			lines = append(lines, Line{N: e.N, Text: e.Text, Class: cl})
 		case "result":
@@ -180,6 +184,11 @@ func classifySSH(fam string, evs []dlg.Event) ([]Line, int) {
 					faultAt = i
 				}
 				lines[i].Res = e.Res
+				// A line that got no answer at all (close, stall) while in
+				// configuration mode was a change attempt.
+				if l := &lines[i]; l.Class == "readonly" && modeConfig[e.N] && !isCleanup(fam, l.Text) && !isSessionSetting(fam, l.Text) {
+					l.Class = "change"
+				}
 			}
 		}
 	}
